@@ -3,7 +3,7 @@
 From Coq Require Import List Arith Bool Permutation.
 Import ListNotations.
 Require Import Fggs.Model.SCC Fggs.Proofs.SCC_bounded Fggs.Proofs.SCC_ntgraph.
-Require Import Fggs.Proofs.SCC_checker Fggs.Proofs.SCC_tarjan Fggs.Proofs.SCC_unique.
+Require Import Fggs.Proofs.SCC_checker Fggs.Proofs.SCC_tarjan Fggs.Proofs.SCC_unique Fggs.Proofs.SCC_count.
 Require Import Fggs.Model.SCCOrder Fggs.Proofs.SCC_order.
 
 (** nonterminal_graph has an edge X->Y exactly when some rule for X has a rhs edge labelled by
@@ -98,6 +98,13 @@ Theorem C19_accepted_components_are_tarjan :
       (forall c', In c' cs' -> exists c, In c cs /\ forall v, In v c' <-> In v c).
 Proof. exact scc_ok_components_are_tarjan. Qed.
 Print Assumptions C19_accepted_components_are_tarjan.
+
+(** ... and as many of them. *)
+Theorem C19_accepted_count_is_tarjan :
+  forall g cs', closed g = true -> scc_ok g cs' = true ->
+    exists cs, scc g = Some cs /\ length cs' = length cs.
+Proof. exact scc_ok_count_is_tarjan. Qed.
+Print Assumptions C19_accepted_count_is_tarjan.
 
 (** "Dependency-ordered", transitively: everything reachable from a vertex of a component of the
     coded Tarjan's output lies in that component or in an EARLIER one (the last clause of the
